@@ -1193,7 +1193,7 @@ def padleft_fn(
     else:
         cnt = min(int(cntstr), 500)  # MediaWiki pads to at most 500 characters
     if cnt - len(v) > len(pad) and len(pad) > 0:
-        pad = pad * ((cnt - len(v)) // len(pad))
+        pad = pad * ((cnt - len(v)) // len(pad) + 1)
     if len(v) < cnt:
         v = pad[: cnt - len(v)] + v
     return v
@@ -1218,7 +1218,7 @@ def padright_fn(
     else:
         cnt = min(int(cntstr), 500)  # MediaWiki pads to at most 500 characters
     if cnt - len(v) > len(pad) and len(pad) > 0:
-        pad = pad * ((cnt - len(v)) // len(pad))
+        pad = pad * ((cnt - len(v)) // len(pad) + 1)
     if len(v) < cnt:
         v = v + pad[: cnt - len(v)]
     return v
